@@ -2,7 +2,9 @@
 // Engine E: every grid size with extents 0..4 in 1, 2 and 3 dimensions, every (min, sup) pair with components
 // 0..5, every position in a margin around the grid is enumerated and compared with explicit nested loops in
 // storage order (C08_common.hpp).  Parts: C08_pos.cpp (free functions on positions, three size types),
-// C08_grid.cpp (grid::object, at_optional, pos_ref ranges), C08_ops.cpp (resize/map/apply/fill/clamp helpers).
+// C08_grid.cpp (grid::object, at_optional, pos_ref ranges), C08_ops.cpp (resize/map/apply/fill/clamp helpers),
+// C08_scale.cpp (large extents, value operations), C08_hist.cpp (range objects kept across operations on their grid),
+// C08_cat.cpp (value categories of grid arguments).
 #include <C08_common.hpp>
 
 int main(int argc, char **argv)
@@ -11,5 +13,7 @@ int main(int argc, char **argv)
   c08::register_grid_shards();
   c08::register_ops_shards();
   c08::register_scale_shards();
+  c08::register_hist_shards();
+  c08::register_cat_shards();
   return vrt::run(argc, argv);
 }
